@@ -33,7 +33,7 @@ lines += ['',
           '(C03-7), raw-block / line-comment / `-}}` lexing with custom delimiters (C10-2, C10-3, C10-5) and `render_debug_info` (C14-2, C14-6): Kani does not get through `dyn Object` iteration, the `fmt` machinery or',
           'the tokenizer loops inside the caps, and these are not control-flow or data-flow facts that the MIR checks of engine M express without naming the very expression that was changed.  Inconclusive (exit 2): the',
           'three harnesses that time out on the changed code and C20-7, where the changed `LoaderStore::clear` leaves the grammar engine L translates.',
-          'Rounds 6 and 7 (independent sub-agents, 24 changes) were first run against the checks as they stood - 9 of 24 caught - and the checks were then extended where a missed change pointed at a fact that a',
+          'Rounds 6 and 7 (independent sub-agents, 24 changes) were first run against the checks as they stood - of the 12 changes of round 7 only C15-4 and C20-5 were caught at that point - and the checks were then extended where a missed change pointed at a fact that a',
           'solver query over the MIR or the bytecode can state in general terms (captures, safe-string sources, comparison arms, flag discipline of the notifier, comparators of the ordering filters, pooled buffers,',
           'state ids, literal radix ...); each extension is described in A.2 / A.4 with the seed it now catches, and was also run on a behaviour-preserving refactoring where one was easy to write (e.g. the capture mode',
           'held in a local first; `clear()` only on the recycle side of the pool).', '']
